@@ -442,7 +442,7 @@ def _run_point(job) -> dict:
         shutil.rmtree(d, ignore_errors=True)
 
 
-def _child_memory(hist: list[str], outfd: int, form: str = "none") -> None:
+def _child_memory(hist: list[str], outfd: int, form: str = "none", dirs: tuple | None = None) -> None:
     """in-memory instances: no files anywhere, nothing shared between instances.
     `form` = how db_path is given: none (argument absent / None), empty ("" – falsy, i.e. in memory), or a storage form
     (rel = relative path, pathobj = pathlib.Path, slash = trailing slash): then the files must be in <cwd>/data and a later
@@ -450,8 +450,7 @@ def _child_memory(hist: list[str], outfd: int, form: str = "none") -> None:
     import fakesnow
     import fakesnow.instance
     import snowflake.connector
-    cwd = tempfile.mkdtemp(prefix="c18-mem-")
-    tmp = tempfile.mkdtemp(prefix="c18-memtmp-")
+    cwd, tmp = dirs if dirs else (tempfile.mkdtemp(prefix="c18-mem-"), tempfile.mkdtemp(prefix="c18-memtmp-"))
     os.chdir(cwd)
     os.environ["TMPDIR"] = tmp
     tempfile.tempdir = tmp
@@ -492,7 +491,13 @@ def _child_memory(hist: list[str], outfd: int, form: str = "none") -> None:
 
 
 def _run_memory(job) -> dict:
-    st, out = _fork(lambda fd: _child_memory(job["hist"], fd, job.get("form", "none")))
+    # the scratch cwd / TMPDIR of the child are made here so that they can be removed whatever happens to the child
+    dirs = (tempfile.mkdtemp(prefix="c18-mem-"), tempfile.mkdtemp(prefix="c18-memtmp-"))
+    try:
+        st, out = _fork(lambda fd: _child_memory(job["hist"], fd, job.get("form", "none"), dirs))
+    finally:
+        for d in dirs:
+            shutil.rmtree(d, ignore_errors=True)
     if st != 0 or b"!EXC" in out:
         return {"err": out.decode(errors="replace")[-400:]}
     return json.loads(out.decode())
